@@ -91,8 +91,8 @@ def rule_formula(prog, rep):
         compare(rep, "C07.formula", site, f"_UnconditionalPlanar.__init__:{f}", fields[f], want[f], f"field {f}")
 
 
-def rule_leaky_ctor(prog, rep):
-    rep.rule("C07.tangent", "LeakyTanh constructor: linear_grad = exp(log-gradient of tanh at max_val) with the "
+def rule_leaky_ctor(prog, rep, R="C07.tangent"):
+    rep.rule(R, "LeakyTanh constructor: linear_grad = exp(log-gradient of tanh at max_val) with the "
                             "same log-gradient function as Tanh's log-det, intercept = tanh(max_val) - "
                             "linear_grad*max_val (tangent line through the switch point)", minimum=2)
     c = prog.cls("flowjax.bijections.tanh.LeakyTanh")
@@ -104,21 +104,21 @@ def rule_leaky_ctor(prog, rep):
     from .bij import ld as ldp
     l = ldp(ld)
     if not (l[0] == "call" and l[1] == ("ext", "jax.numpy.sum")):
-        rep.undecided("C07.tangent", site, "LeakyTanh.linear_grad", f"Tanh log-det is not a sum: {show(l, 120)}")
+        rep.undecided(R, site, "LeakyTanh.linear_grad", f"Tanh log-det is not a sum: {show(l, 120)}")
         return
     G = dict(l[3])["a"]
     Gm = subst(G, lambda s: M if s == X else None)
     want_lg = ("call", ("ext", "jax.numpy.exp"), (), (("a", Gm),))
-    compare(rep, "C07.tangent", site, "LeakyTanh.linear_grad", f.get("linear_grad", ("unknown", "missing")),
+    compare(rep, R, site, "LeakyTanh.linear_grad", f.get("linear_grad", ("unknown", "missing")),
             want_lg, "linear_grad")
     lg = f.get("linear_grad", ("unknown", "missing"))
     want_ic = mk_add((("call", ("ext", "jax.numpy.tanh"), (), (("a", M),)),
                       ("mul", (C(-1), lg, M)) if False else _neg_mul(lg, M)))
-    compare(rep, "C07.tangent", site, "LeakyTanh.intercept", f.get("intercept", ("unknown", "missing")),
+    compare(rep, R, site, "LeakyTanh.intercept", f.get("intercept", ("unknown", "missing")),
             want_ic, "intercept")
     mv = f.get("max_val")
     ok = mv is not None and (mv == M or (mv[0] == "call" and mv[1] == ("ext", "builtins.float") and mv[2] == (M,)))
-    rep.check(ok, "C07.tangent", site, "LeakyTanh.max_val", "max_val stored as given",
+    rep.check(ok, R, site, "LeakyTanh.max_val", "max_val stored as given",
               f"max_val stored as {show(mv, 100) if mv else None}")
 
 
@@ -242,8 +242,8 @@ SPLINE_REFS = {
 }
 
 
-def rule_spline(prog, rep):
-    rep.rule("C07.spline", "RationalQuadraticSpline: in-bounds branch equals eq. 4 (transform), eq. 5 (derivative), "
+def rule_spline(prog, rep, R="C07.spline"):
+    rep.rule(R, "RationalQuadraticSpline: in-bounds branch equals eq. 4 (transform), eq. 5 (derivative), "
                            "eq. 6-8 (inverse) of Durkan et al. on the bin located in the right knot table; the "
                            "out-of-bounds branch is the identity (derivative 1); the result is selected by the same "
                            "interval mask that restricts the input", minimum=9)
@@ -253,29 +253,29 @@ def rule_spline(prog, rep):
         site = method_site(prog, c, name)
         k = f"RationalQuadraticSpline.{name}"
         if has_unknown(t):
-            rep.undecided("C07.spline", site, k, f"unmodelled: {find_unknown(t)}")
+            rep.undecided(R, site, k, f"unmodelled: {find_unknown(t)}")
             continue
         wp = where_parts(t)
         if not wp:
-            rep.undecided("C07.spline", site, k + ":where", f"result is not where(mask, formula, tail): {show(t, 160)}")
+            rep.undecided(R, site, k + ":where", f"result is not where(mask, formula, tail): {show(t, 160)}")
             continue
         mask, inb, outb = wp
         want_out = C(1.0) if name == "derivative" else X
         ok_tail = same(outb, want_out) or (name == "derivative" and outb in (C(1), C(1.0)))
-        rep.check(ok_tail, "C07.spline", site, k + ":tail",
+        rep.check(ok_tail, R, site, k + ":tail",
                   "identity outside the interval" if name != "derivative" else "derivative 1 outside the interval",
                   f"out-of-interval branch is {show(outb, 120)}, expected {show(want_out)}")
         ab = abstract_spline(inb)
         if ab is None:
-            rep.undecided("C07.spline", site, k + ":lookup", "bin lookup not recognised")
+            rep.undecided(R, site, k + ":lookup", "bin lookup not recognised")
             continue
         inb2, xr, K, table = ab
-        rep.check(table == ("attr", SELF, table_name), "C07.spline", site, k + ":table",
+        rep.check(table == ("attr", SELF, table_name), R, site, k + ":table",
                   f"bin located in self.{table_name}",
                   f"bin is located in {show(table)}, expected self.{table_name}")
         # restriction mask of the sanitised operand == selecting mask
         xw = where_parts(xr)
-        rep.check(xw is not None and same(xw[0], mask) and xw[1] == X, "C07.spline", site, k + ":mask",
+        rep.check(xw is not None and same(xw[0], mask) and xw[1] == X, R, site, k + ":mask",
                   "the operand is restricted by the same mask that selects the result",
                   f"operand restriction {show(xr, 160)} does not use the selecting mask {show(mask, 160)}")
         # strip clip(., lo, hi)
@@ -284,11 +284,11 @@ def rule_spline(prog, rep):
             kw = dict(body[3])
             lo_hi_ok = kw.get("min") == ("sub", ("attr", SELF, "interval"), C(0)) and \
                 kw.get("max") == ("sub", ("attr", SELF, "interval"), C(1))
-            rep.check(lo_hi_ok, "C07.spline", site, k + ":clip", "clipped to the interval",
+            rep.check(lo_hi_ok, R, site, k + ":clip", "clipped to the interval",
                       f"clip bounds are {show(kw.get('min'))}, {show(kw.get('max'))}")
             body = kw.get("a")
         want = eval_ref_method(prog, c, src, [("sym", "XR"), ("sym", "K")])
-        compare(rep, "C07.spline", site, k + ":formula", body, want, f"in-bounds {name}")
+        compare(rep, R, site, k + ":formula", body, want, f"in-bounds {name}")
     # mask is the closed interval test on the input
     t = spline_method_term(prog, "transform")
     wp = where_parts(t)
@@ -299,6 +299,6 @@ def rule_spline(prog, rep):
         site = method_site(prog, c, "transform")
         ok = mi is not None and mi[4] == ("sub", ("attr", SELF, "interval"), C(0)) and \
             mi[5] == ("sub", ("attr", SELF, "interval"), C(1))
-        rep.check(ok, "C07.spline", site, "RationalQuadraticSpline:mask==interval",
+        rep.check(ok, R, site, "RationalQuadraticSpline:mask==interval",
                   "mask is interval[0] <= x <= interval[1]",
                   f"mask is {show(wp[0], 200)}")
